@@ -310,7 +310,7 @@ def cut_stream(res, rng, tier):
 
 def run(res, tier="quick", seed=0, widen=False):
     rng = random.Random(seed * 31 + 20 + (1 if widen else 0))
-    res.rule = ("nanops: seeded 1-D arrays of length 1..12 (float64/float32 with NaN at any place, int64) x 7 functions x n_threads 1..8 vs NumPy and (sum/min/max) vs the extracted "
+    res.rule = ("nanops: seeded 1-D arrays of length 1..12 (float64/float32 with NaN at any place, int64, the narrow integer dtypes over their full range, values with offsets up to 1e15 / epoch nanoseconds) x 7 functions x n_threads 1..8 vs NumPy and (sum/min/max) vs the extracted "
                 "model of the chunked reduction; 2-D sum/min/max on both axes; nb_dot on small integer/float matrices as array / pandas / polars frame vs a @ b; "
                 "bools_to_categorical on every boolean frame up to 3x3 (4x4 sampled in thorough); pretty_cut on seeded value/edge grids incl. values equal to edges, "
                 "outside all edges, nulls, unsorted edges; non-trivial = has a null or several threads (nanops), every case otherwise; distinct = canonical case")
